@@ -192,10 +192,34 @@ static struct rcmd_module * rcmd_module_register (char *name)
     return (rmod);
 }
 
+/*
+ *  Expand `hosts' the way opt.c:wcoll_expand() expands the target list
+ *   (two passes, to allow two sets of brackets), so that hosts are
+ *   registered under the names they are later looked up by.
+ */
+static hostlist_t hostlist_create_expanded (const char *hosts)
+{
+    hostlist_t hl = hostlist_create (hosts);
+    hostlist_t new;
+    char *host;
+
+    if (hl == NULL)
+        return (NULL);
+
+    new = hostlist_create ("");
+    while ((host = hostlist_shift (hl))) {
+        hostlist_push (new, host);
+        free (host);
+    }
+    hostlist_destroy (hl);
+
+    return (new);
+}
+
 static int hostlist_register_rcmd (const char *hosts, struct rcmd_module *rmod,
                                    char *user)
 {
-    hostlist_t hl = hostlist_create (hosts);
+    hostlist_t hl = hostlist_create_expanded (hosts);
     char * host;
 
     if (hl == NULL)
